@@ -20,6 +20,14 @@ CHECKS["C02"] = ("docspace", "model_checking",
    "bounded exhaustive exploration: for every document of the space and every ordered pair of the four formatting routes, formatting the formatted text again must return it byte-for-byte",
    "no reference model needed (the implementation is compared with itself); bound: see evidence",
    "explicit-state enumeration of the input space, idempotence oracle over all route pairs", "§5 C02")
+CHECKS["C04"] = ("histspace", "model_checking",
+   "bounded exhaustive exploration of edit histories on the real Database and the real Server: all operation sequences up to the stated depth over a key x text alphabet built from the anchored mechanisms, from three initial libraries; after each history the canonical dump of every observable answer is compared with a from-scratch build of the current texts (differential oracle, no expected values written by hand)",
+   "stateless search (no state merging, because the concrete state hides stale index entries by design); node ids never compared",
+   "explicit-state exploration of operation sequences on the implementation, differential oracle against a fresh build", "§5 C04")
+CHECKS["C20"] = ("histspace", "model_checking",
+   "the same bounded exhaustive history exploration as C04, with an independent arena-invariant walker evaluated on every reached state and on the patch graphs (collect / squash previews) built from it",
+   "the walker uses only the public read API of Graph; bound: see evidence",
+   "explicit-state exploration of operation sequences on the implementation, invariant checked in every state", "§5 C20")
 NOT_APPLICABLE = {}
 manifest = {
  "version": 1,
@@ -32,6 +40,7 @@ manifest = {
    "add_only": True,
  },
  "engines": [
+   {"name": "histspace", "path": "/verif/mc/src/engines/hist.rs", "serves_properties": ["C04","C20"], "kind_free_text": "enumerates all update/insert histories up to a depth and runs them on the real Database / Server"},
    {"name": "docspace", "path": "/verif/mc/src/engines/docs.rs", "serves_properties": ["C01","C02","C03","C07"], "kind_free_text": "enumerates documents from a token alphabet / block grammar / inline grammar and runs the real formatter and server on each"},
  ],
  "checks": [],
